@@ -339,6 +339,17 @@ class Ctx:
                     rp_['oracle_error'] = str(e)
             return rp_, native_, ok_
         rp, native, reproduced = run_once(profiles)
+        if not reproduced and native is not None and native_oracle is not None:
+            # outcomes that depend on the iteration order of a hash map (which of two channels is visited first) differ from process to
+            # process: a property-level oracle gets a few more native runs before the counterexample counts as not reproduced
+            for attempt in range(3):
+                rp_n, native_n, ok_n = run_once(profiles)
+                rp.setdefault('further_runs', []).append(native_n)
+                if ok_n:
+                    rp['profiles'].update(rp_n['profiles'])
+                    native, reproduced = native_n, True
+                    rp['reproduced_by'] = rp_n.get('reproduced_by', 'native observation equals the engine prediction') + f' (native run {attempt + 2} of up to 4: hash-map iteration order varies between runs)'
+                    break
         if not reproduced and 'release' not in profiles:
             # the solver decides on MIR compiled without debug assertions: try the profile that matches it
             rp2, native2, ok2 = run_once(('release',))
